@@ -159,6 +159,19 @@ def clientTry (c : Cache) (now : Nat) (tag addr cmd : Str) (answer : ServerAnswe
       | .broken => (c.invalidate e.id, .resumeFailed e.id)
       | .other _ => (c, .resumeFailed e.id)
 
+/-- `ClientHandshake` with an explicit `SessionID` (pre-registered / claim sessions): the named
+    session is resumed whatever tag, server and command the connection is for; the command map is
+    neither consulted nor changed. -/
+def clientById (c : Cache) (now : Nat) (sid : Str) (answer : ServerAnswer) : Cache × ClientStep :=
+  match c.lookupNonExpired now sid with
+  | (c1, none) => (c1, .resumeFailed sid)
+  | (c1, some e) =>
+    match answer with
+    | .authorized => (c1.store (e.renew now), .resumed e.id e.key e.user e.authenticated)
+    | .sidNotFound => (c1.invalidate e.id, .resumeFailed e.id)
+    | .broken => (c1.invalidate e.id, .resumeFailed e.id)
+    | .other _ => (c1, .resumeFailed e.id)
+
 /-- `storeClientSession` after a full handshake (fix D7: under the handshake's own tag) -/
 def clientStore (c : Cache) (tag addr : Str) (e : Entry) : Cache :=
   let e' := { e with tag := tag, addr := addr }
